@@ -220,6 +220,94 @@ Definition prepare (run : frame -> option Q -> result) (w : world) (path : list 
       end
   end.
 
+(* ------------------------------------------------------------------ several calls in one exe_dir *)
+(* A wire-fencing move regenerates velocities once per jump between two clean_up() calls of the
+   worker directory: conf.<ext> and genvel.<ext> of the previous call are still there when the
+   next one starts.  Files are now TRAJECTORIES (their snapshots in order) and a shooting point
+   is (file, index), as System.config is.
+
+     pos = self.dump_frame(system)      _extract_frame(file, idx, conf.<ext>)
+        rule "extraction overwrites" [overwrite = true]: afterwards conf.<ext> holds exactly that
+        snapshot (write_xyz_trajectory(..., append=False) for CP2K / TurtleMD, write_lammpstrj
+        opening with "w", shutil.copyfile for .g96, ase.io.write); [false] stands for an
+        extraction that appends behind what is there (the default of write_xyz_trajectory)
+     self._read_configuration(pos) / read_lammpstrj(pos, 0, n) / read_gromos96_file(pos)
+        the FIRST snapshot of conf.<ext> (ase.io.read returns the last one; with the rule in
+        place the file holds one snapshot, see [extract_overwrites])
+     genvel.<ext> is always rewritten and the System re-pointed to (genvel, 0). *)
+Definition tworld := fname -> list frame.
+
+Definition twrite (append : bool) (w : tworld) (f : fname) (c : frame) : tworld :=
+  fun g => if fname_eqb g f then (if append then w g ++ [c] else [c]) else w g.
+
+Record tsystem := mkTSys { t_file : fname; t_idx : nat; t_ekin : option Q }.
+
+Definition modify_tworld (overwrite : bool) (run : frame -> option Q -> result) (w : tworld) (s : tsystem)
+  : option (tworld * tsystem * result) :=
+  match nth_error (w (t_file s)) (t_idx s) with
+  | None => None
+  | Some fr =>
+      let w1 := twrite (negb overwrite) w FConf fr in
+      match w1 FConf with
+      | [] => None
+      | fr0 :: _ =>
+          let r := run fr0 (t_ekin s) in
+          Some (twrite false w1 FGenvel (r_frame r), mkTSys FGenvel 0 (Some (r_kin_new r)), r)
+      end
+  end.
+
+(* one call = its shooting point and its operation (engine, masses, setting and ITS draws) *)
+Definition vcall := (tsystem * (frame -> option Q -> result))%type.
+
+Fixpoint modify_seq (overwrite : bool) (w : tworld) (calls : list vcall) : option (tworld * list result) :=
+  match calls with
+  | [] => Some (w, [])
+  | (s, run) :: rest =>
+      match modify_tworld overwrite run w s with
+      | None => None
+      | Some (w1, _, r) =>
+          match modify_seq overwrite w1 rest with
+          | None => None
+          | Some (w2, rs) => Some (w2, r :: rs)
+          end
+      end
+  end.
+
+(* what a call yields when nothing else ever happened in the directory: its operation on its own
+   shooting point, looked up in the world [w] *)
+Definition call_alone (w : tworld) (c : vcall) : option result :=
+  match nth_error (w (t_file (fst c))) (t_idx (fst c)) with
+  | Some fr => Some (snd c fr (t_ekin (fst c)))
+  | None => None
+  end.
+
+Definition from_source (c : vcall) : Prop := exists n, t_file (fst c) = FSrc n.
+
+(* the sequence of the harness: one engine, one setting, per call (source file, index, stored ekin, stream) *)
+Definition std_call (e : engine) (mass : list Q) (zm : option bool) (sig : list Q)
+           (c : Z * nat * option Q * list Q) : vcall :=
+  let '(fno, idx, ek, s) := c in
+  (mkTSys (FSrc fno) idx ek,
+   fun fr ekin => modify_std e mass fr ekin zm sig (cols_of_stream (f_npart fr) (f_dim fr) s)).
+
+Definition ase_call (fixed_L6 : bool) (mass : list Q) (zm : option bool) (sigp : list Q)
+           (c : Z * nat * option Q * list Q) : vcall :=
+  let '(fno, idx, ek, s) := c in
+  (mkTSys (FSrc fno) idx ek,
+   fun fr _ => modify_ase fixed_L6 mass fr zm sigp (cols_of_stream (length mass) 3 s)).
+
+Definition world_of_files (files : list (list frame)) : tworld :=
+  fun g => match g with
+           | FSrc n => if (n <? 0)%Z then [] else nth (Z.to_nat n) files []
+           | _ => []
+           end.
+
+Definition seq_results (overwrite : bool) (files : list (list frame)) (calls : list vcall) : option (list result) :=
+  match modify_seq overwrite (world_of_files files) calls with
+  | Some (_, rs) => Some rs
+  | None => None
+  end.
+
 (* ------------------------------------------------------------------ unit systems (specification) *)
 (* SI values (2019 SI: k, N_A, e exact; CODATA 2018 for E_h, m_u, m_e; thermochemical cal). *)
 Definition si_k   : Q := 1380649 # (10 ^ 29).            (* J/K *)
